@@ -116,7 +116,8 @@ pub extern "C" fn redirectionio_action_body_filter_create(
 #[unsafe(no_mangle)]
 pub extern "C" fn redirectionio_action_body_filter_filter(_filter: *mut FilterBodyAction, buffer: Buffer) -> Buffer {
     if _filter.is_null() {
-        return buffer.duplicate();
+        // the buffer is owned by this function: hand it back instead of leaking it behind a copy
+        return buffer;
     }
 
     // SAFETY: _filter is a valid pointer to a FilterBodyAction
